@@ -3,8 +3,8 @@
    A case carries what the harness did (class, entry point, malformed class, the abstract input
    record) and what the implementation answered: the exception class of the call and, for an
    object fitted before the call, whether values_orders / to_json() / transform(X_valid) are
-   what they were before it.  The model is run on the same abstract input with the Repaired
-   step lists (guard first) and with the Current ones. *)
+   what they were before it.  The model is run on the same abstract input with the step lists
+   of the Current tree. *)
 From Coq Require Import List Bool Arith.
 Import ListNotations.
 From AC.Model Require Import Validate.
@@ -50,5 +50,5 @@ Definition in_domain (c : case19) : bool :=
 Definition verdict19 (c : case19) : nat :=
   if negb (in_domain c) then 3
   else if negb (prop19 c) then 2
-  else if agree Repaired c || agree Current c then 0
+  else if agree Current c then 0
   else 1.
